@@ -33,6 +33,10 @@ type detCase struct {
 	CallOrder []string          `json:"call_order"`    // CompilePackage calls on one shared set (may repeat)
 	Repeats   int               `json:"repeats"`
 	Subproc   bool              `json:"subprocess,omitempty"`
+	// Prelude: an unrelated bundle compiled first in this process ("what else was
+	// compiled earlier"); the baseline is then compared with a fresh process that
+	// never saw it.
+	Prelude map[string]string `json:"prelude,omitempty"`
 }
 
 func laneCase(raw json.RawMessage) ([]vf.Failure, error) {
@@ -161,6 +165,11 @@ func check(c detCase) (fails []vf.Failure) {
 
 func checkInner(c detCase) (fails []vf.Failure) {
 	pkgs := packages(c.Files)
+	if c.Prelude != nil {
+		if _, err := compileAll(&j5sx.Bundle{Files: c.Prelude}, packages(c.Prelude), false); err != nil {
+			return []vf.Failure{vf.Failf("compile|error", "prelude compile failed (C07's verdict): %v", err)}
+		}
+	}
 	base, err := compileAll(&j5sx.Bundle{Files: c.Files}, pkgs, false)
 	if err != nil {
 		return []vf.Failure{vf.Failf("compile|error", "baseline compile failed (C07's verdict): %v", err)}
@@ -194,7 +203,11 @@ func checkInner(c detCase) (fails []vf.Failure) {
 		if err != nil {
 			fails = append(fails, vf.Failf("harness|subprocess", "subprocess: %v", err))
 		} else {
-			fails = append(fails, compare("other-process", base, got)...)
+			label := "other-process"
+			if c.Prelude != nil {
+				label = "after-earlier-compile"
+			}
+			fails = append(fails, compare(label, base, got)...)
 		}
 	}
 	return dedupe(fails)
@@ -219,6 +232,7 @@ func subprocessDigest(c detCase) (map[string]output, error) {
 		return nil, err
 	}
 	defer os.Remove(tmp.Name())
+	c.Prelude = nil // the other process compiles the bundle alone
 	b, _ := json.Marshal(c)
 	tmp.Write(b)
 	tmp.Close()
@@ -275,8 +289,65 @@ func TestDigestHelper(t *testing.T) {
 	}
 }
 
+// addTwinImport gives one file two un-aliased imports that imply the same default
+// name (x.bar.v1 and zeta.bar.v1 both answer to "bar"): a copy of an imported
+// package under another root, imported on the line before the original so that
+// the original stays the later of the two, and referred to by its full name so
+// that it is loaded. Which package "bar.Foo" then means is decided by the order
+// of the import lines, not by chance; both declare Foo, so either way it links.
+func addTwinImport(t *rapid.T, b *j5sgen.Bundle, files map[string]string) bool {
+	type cand struct{ file, pkg, obj string }
+	var cands []cand
+	var paths []string
+	for f := range files {
+		paths = append(paths, f)
+	}
+	sort.Strings(paths)
+	for _, f := range paths {
+		for _, p := range b.Packages {
+			if !strings.Contains(files[f], "\nimport "+p.Name+"\n") {
+				continue
+			}
+			segs := strings.Split(p.Name, ".")
+			word := segs[len(segs)-2]
+			if !strings.Contains(files[f], ":"+word+".") && !strings.Contains(files[f], "ref "+word+".") {
+				continue
+			}
+			for _, pf := range p.Files {
+				for _, d := range pf.Decls {
+					if d.Object != nil {
+						cands = append(cands, cand{f, p.Name, d.Object.Name})
+					}
+				}
+			}
+		}
+	}
+	if len(cands) == 0 {
+		return false
+	}
+	c := rapid.SampledFrom(cands).Draw(t, "twin")
+	segs := strings.Split(c.pkg, ".")
+	segs[0] = "zeta"
+	twin := strings.Join(segs, ".")
+	for _, p := range b.Packages {
+		if p.Name != c.pkg {
+			continue
+		}
+		for _, pf := range p.Files {
+			tp := "zeta" + pf.Path[strings.Index(pf.Path, "/"):]
+			files[tp] = strings.ReplaceAll(files[pf.Path], c.pkg, twin)
+		}
+	}
+	files[c.file] = strings.Replace(files[c.file], "\nimport "+c.pkg+"\n", "\nimport "+twin+"\nimport "+c.pkg+"\n", 1) +
+		"\nobject TwinUser {\n\tfield twin object:" + twin + "." + c.obj + "\n}\n"
+	return true
+}
+
 func TestDeterminism(t *testing.T) {
 	r := vf.Start(t, prop, "determinism")
+	// what a case depends on is in the case (its prelude included); a failure that
+	// needs the cases before it as well cannot be replayed and is set aside
+	r.ConfirmFresh()
 	n := 0
 	rapid.Check(t, func(t *rapid.T) {
 		o := j5sgen.DefaultOpts()
@@ -310,6 +381,9 @@ func TestDeterminism(t *testing.T) {
 				cls = append(cls, "nested-package")
 			}
 		}
+		if rapid.IntRange(0, 2).Draw(t, "twinimport") == 0 && addTwinImport(t, b, files) {
+			cls = append(cls, "imports-sharing-default-name")
+		}
 		c := detCase{Files: files, Repeats: 2}
 		var names []string
 		for f := range files {
@@ -326,6 +400,14 @@ func TestDeterminism(t *testing.T) {
 		n++
 		if vf.Tier() == "thorough" && n%8 == 0 {
 			c.Subproc = true
+		}
+		if rapid.IntRange(0, 5).Draw(t, "prelude") == 0 {
+			po := j5sgen.DefaultOpts()
+			po.MaxPackages, po.MaxFiles = 1, 2
+			pb, _ := j5sgen.Draw(t, po)
+			c.Prelude = pb.Render()
+			c.Subproc = true
+			cls = append(cls, "earlier-compile")
 		}
 		nt := (classes["multi-file-package"] && classes["multi-package"]) || classes["enum-option-info"]
 		for k := range classes {
